@@ -125,7 +125,9 @@ def walk_connect(ctx, cls):
             continue
         ent = new[4]
         if not (is_t(ent) and ent[1] == 'tuple'):
-            bad.append('the appended entry is not a tuple')
+            # an entry built by a constructor the walk does not model (a record class, a dataclass) is not a wrong entry
+            opaque = is_t(ent) and ent[1] in ('call', 'instance', 'new')
+            bad.append(('UNDECIDED ' if opaque else '') + 'the appended entry is not a tuple (%s)' % show(ent)[:50])
             continue
         roles = []
         for comp in ent[2:]:
@@ -145,14 +147,17 @@ def walk_connect(ctx, cls):
         layout = roles
         if val != T('param', 'func'):
             bad.append('connect does not return the callback (decorator use would rebind the function to %s)' % show(val)[:40])
-    if bad:
-        for b in sorted(set(bad)):
+    if [b for b in bad if not b.startswith('UNDECIDED ')]:
+        for b in sorted(set(b for b in bad if not b.startswith('UNDECIDED '))):
             ctx.violated('C19.P2', fi, b, b)
+    elif bad:
+        for b in sorted(set(bad))[:2]:
+            ctx.undecided('C19.P2', fi, b[len('UNDECIDED '):])
     elif layout is None:
         ctx.undecided('C19.P2', fi, 'no path of connect(func, event=..) registers an entry')
     else:
         ctx.holds('C19.P2', fi, 'connect appends exactly one entry %s at the end and returns the callback (%d paths)' % (tuple(layout), n), 'connect')
-    return layout or ['event', 'sender', 'func', 'kwargs']
+    return layout
 
 
 def _assignments(atoms):
@@ -236,6 +241,7 @@ def walk_emit(ctx, cls, layout):
               'emit calls a registered callback although the emitter is silenced')
     # ---- P3..P6
     problems = {}
+    gen_seen = set()
     total = 0
     kmax = ctx.bound(2, 3)
     for k in range(kmax + 1):
@@ -245,6 +251,7 @@ def walk_emit(ctx, cls, layout):
         ctx.analysed['paths'] += len(outs)
         total += len(outs)
         for kind, val, st in outs:
+            gen_seen |= {e[1] for e in st.trace if e[0] == 'generator'}
             if kind != 'return':
                 problems.setdefault('emit raises %s' % val, 1)
                 continue
@@ -314,7 +321,9 @@ def walk_emit(ctx, cls, layout):
                 else:
                     if val != T('list', *results):
                         problems.setdefault('emit returns %s, expected the list of results in call order [%s]' % (show(val)[:80], wit), 1)
-    if problems:
+    if gen_seen:
+        ctx.undecided('C19.P3', fi, 'emit dispatches through the generator %s: lazy evaluation interleaved with its consumer is not modelled by the walk' % ', '.join(sorted(gen_seen)))
+    elif problems:
         for msg in list(problems)[:4]:
             ctx.violated('C19.P3', fi, msg[:160], msg)
     else:
@@ -501,6 +510,16 @@ def walk_reporter(ctx):
 def run(ctx):
     cls = ctx.repo.cls(M, 'EventEmitter')
     layout = walk_connect(ctx, cls)
+    if layout is None:
+        # the shape of a registry entry is what unconnect / emit are walked with: without it nothing definite can be said about them
+        reported = any(o.rule == 'C19.P2' and o.status == 'violated' for o in ctx.obs)
+        layout = ['event', 'sender', 'func', 'kwargs']
+        if not reported:
+            ctx.undecided('C19.P2', cls.name, 'unconnect: the layout of a registry entry was not derived from connect')
+            ctx.undecided('C19.P3', cls.name, 'emit: the layout of a registry entry was not derived from connect')
+            ctx.part('C19.P7', walk_silent, cls)
+            ctx.part('C19.R1', walk_reporter)
+            return
     ctx.part('C19.P2', walk_unconnect, cls, layout)
     ctx.part('C19.P3', walk_emit, cls, layout)
     ctx.part('C19.P7', walk_silent, cls)
